@@ -7,13 +7,16 @@ harness from a z3 model) takes precedence: that is the "substituted PRF" of C01/
 import hashlib
 import hmac as _hmac
 import z3
-from .logic import (Rope, as_rope, is_sym, sink, land, lor, lnot, implies, eq, ite, to_be,
+from .logic import (SymVal, Rope, as_rope, is_sym, sink, land, lor, lnot, implies, eq, ite, to_be,
                     INT)
 
 N = 0xFFFFFFFFFFFFFFFFFFFFFFFFFFFFFFFEBAAEDCE6AF48A03BBFD25E8CD0364141   # SEC2 secp256k1 order
 P_FIELD = 2 ** 256 - 2 ** 32 - 977
 
 OVERRIDES = {}      # (name, arg-bytes...) -> bytes      (concrete mode only)
+
+
+WILDCARD = {}       # name -> callable(*nat) -> bytes | None   (bounded stand-in: chosen-output PRF)
 
 
 def override(name, *nat):
@@ -26,7 +29,11 @@ def override(name, *nat):
         for (n2, k2, m2), out in OVERRIDES.items():
             if n2 == name and k2 == nat[0] and len(m2) == len(nat[1]) and m2[-4:] == nat[1][-4:]:
                 return out
+    w = WILDCARD.get(name)
+    if w is not None:
+        return w(*nat)
     return None
+
 
 Pt = z3.DeclareSort("Pt")
 INF = z3.Const("INF", Pt)
@@ -50,6 +57,21 @@ def _record(name, args, res):
 
 
 def _hash_like(name, outlen, native_fn, *ropes):
+    from .logic import OBytes
+    if any(isinstance(r, OBytes) for r in ropes):
+        f = _uf(name + "_any", 2 * len(ropes))
+        a = []
+        for r in ropes:
+            if isinstance(r, OBytes):
+                a += [r.val, r.len]
+            else:
+                r = as_rope(r)
+                v = r.be()
+                a += [v if is_sym(v) else z3.IntVal(v), z3.IntVal(len(r))]
+        res = f(*a)
+        sink().add(z3.And(res >= 0, res < 256 ** outlen))
+        out = Rope([(res, outlen, False)])
+        return out
     ropes = [as_rope(r) for r in ropes]
     if all(r.is_concrete() for r in ropes):
         nat = tuple(r.native() for r in ropes)
@@ -105,7 +127,7 @@ def pbkdf2_sha512(pw, salt, rounds, dklen=64):
 
 # ------------------------------------------------------------------ secp256k1 (abstract group)
 
-class SymPt:
+class SymPt(SymVal):
     """A curve point: symbolic term of sort Pt, or a native ecdsa point."""
     __slots__ = ("t",)
 
